@@ -6,6 +6,8 @@ import PercevalModel.Model.C15PS
 import PercevalModel.Model.C15PSW
 import PercevalModel.Model.C15Tree
 import PercevalModel.Model.C15F32
+import PercevalModel.Model.C15Det
+import PercevalModel.Model.C15Noise
 
 /-!
   Line protocol for C15 (model: `Model/C15.lean`).  Every request carries
@@ -20,6 +22,10 @@ import PercevalModel.Model.C15F32
   * `experiment` {obj}            → {enc, dec|null, allocs, eq}
   * `decexp`     {pb}             → {dec|null}
   * `det` / `port` / `noise` / `mat` {obj[, asfound]} → {enc, dec|null};  `kw` {tag} → {accepted, accepted_as_found, known};  `decdet` / `decport` / `decmat` {pb} → {dec|null}
+  * `detctors`   {args:[[n_wires|null, max_detections|null]…]} → {res:[{ctor:[w,m]|null, type, enc:[a,b]|null, dec:[[w,m],type]|null, expected}]}
+                 `Detector.__init__` + codec (`Model/C15Det.lean`);  `detdecs` {fs:[[a,b]…]} → {res:[[[w,m],type]|null]}
+  * `noisehist`  {args:[[k,v]…], ops:[["num",name,v]|["bool",b]…]} → {ctor:"ok"|error class, raised:[[i,class]], state, same, enc, dec}
+                 `NoiseModel(**args)` + `set_value` history (`Model/C15Noise.lean`);  `decnoisev` {pb} → {dec: kvs | {raises}}
   * `envelope`   {tag, payload, compress} → {text, open}            (identity codec for zlib+base64)
   * `open`       {text}           → {open: [tag, payload] | null}
   * `bss`        {samples}        → {dict, order, dec}
@@ -409,9 +415,46 @@ def orderTable (t : FFC.Table Rat) (ns : List String) : Except String (FFC.Table
 
 def tableOverflows (t : FFC.Table Rat) : Bool := t.any fun e => (F32.f32 e.2).isNone
 
+
+/-! ### constructor layer of `Detector` (`Model/C15Det.lean`) -/
+
+def dstateJ (s : DetC.DState) : Json := Json.arr #[optToJ intJ s.wires, optToJ intJ s.max]
+
+def dtypeJ : DetC.DType → Json
+  | .threshold => "Threshold" | .pnr => "PNR" | .ppnr => "PPNR"
+
+def pairOptInt (j : Json) : Except String (Option Int × Option Int) := do
+  match (← j.getArr?).toList with
+  | [a, b] => pure (← optJ a (·.getInt?), ← optJ b (·.getInt?))
+  | _ => throw "expected [n_wires|null, max_detections|null]"
+
+def pairInt (j : Json) : Except String (Int × Int) := do
+  match (← j.getArr?).toList with
+  | [a, b] => pure (← a.getInt?, ← b.getInt?)
+  | _ => throw "expected [n_wires, max_detections]"
+
+/-- one `Detector(nw, md)`: constructor, type, message fields, what the reader rebuilds -/
+def detCtorJ (a : Option Int × Option Int) : Json :=
+  match DetC.ctor a.1 a.2 with
+  | none => Json.mkObj [("ctor", Json.null)]
+  | some s =>
+    let e := DetC.enc s
+    Json.mkObj [("ctor", dstateJ s), ("type", dtypeJ (DetC.dtype s)),
+      ("enc", optToJ (fun (f : Int × Int) => Json.arr #[intJ f.1, intJ f.2]) e),
+      ("dec", match e with
+        | none => Json.null
+        | some f => optToJ (fun t => Json.arr #[dstateJ t, dtypeJ (DetC.dtype t)]) (DetC.dec f)),
+      ("expected", dstateJ (DetC.expected s))]
+
 def handle (j : Json) : Except String Json := do
   let op ← strOf j "op"
   match op with
+  | "detctors" =>
+    let as ← listOf (← j.getObjVal? "args") pairOptInt
+    pure (Json.mkObj [("res", listJ detCtorJ as)])
+  | "detdecs" =>
+    let fs ← listOf (← j.getObjVal? "fs") pairInt
+    pure (Json.mkObj [("res", listJ (fun f => optToJ (fun t => Json.arr #[dstateJ t, dtypeJ (DetC.dtype t)]) (DetC.dec f)) fs)])
   | "f32" => pure (Json.mkObj [("f32", f32J (← ratOfJson (← j.getObjVal? "v")))])
   | "f32s" =>
     let vs ← listOf (← j.getObjVal? "vs") ratOfJson
@@ -1061,6 +1104,28 @@ def handleE (j : Json) : Except String Json := do
   | "noise" =>
     let n ← noiseOf (← j.getObjVal? "obj")
     pure (Json.mkObj [("enc", kvsJ (encNoise n)), ("dec", optToJ noiseJ (decNoise (encNoise n)))])
+  | "noisehist" =>
+    -- `NoiseModel(**args)` then `set_value` calls (`Model/C15Noise.lean`); a raising call is skipped
+    let a ← noiseOf (← j.getObjVal? "args")
+    let errJ : NoiseC.Err → Json := fun e => match e with | .type => "TypeError" | .value => "ValueError" | .key => "KeyError"
+    match NoiseC.ctor a with
+    | .error e => pure (Json.mkObj [("ctor", errJ e)])
+    | .ok n0 =>
+      let ops ← listOf (← j.getObjVal? "ops") fun o => match o with
+        | .arr #[.str "num", .str name, v] => do pure (NoiseC.Op.num name (← ratOfJson v))
+        | .arr #[.str "bool", .bool b] => pure (NoiseC.Op.bool b)
+        | _ => throw "bad set_value call"
+      let (n, raised, _) := ops.foldl (fun (acc : Noise × List Json × Nat) o =>
+        match NoiseC.step acc.1 o with
+        | .ok n' => (n', acc.2.1, acc.2.2 + 1)
+        | .error e => (acc.1, acc.2.1 ++ [Json.arr #[(acc.2.2 : Nat), errJ e]], acc.2.2 + 1)) (n0, [], 0)
+      pure (Json.mkObj [("ctor", "ok"), ("raised", Json.arr raised.toArray), ("state", noiseJ n),
+        ("same", decide (n = NoiseC.runOps n0 ops)),
+        ("enc", kvsJ (encNoise n)),
+        ("dec", match NoiseC.decV (encNoise n) with | .ok m => noiseJ m | .error e => errJ e)])
+  | "decnoisev" =>
+    pure (Json.mkObj [("dec", match NoiseC.decV (← kvsOf (← j.getObjVal? "pb")) with
+      | .ok m => noiseJ m | .error e => Json.mkObj [("raises", (match e with | .type => "TypeError" | .value => "ValueError" | .key => "KeyError" : String))])])
   | "decnoise" => pure (Json.mkObj [("dec", optToJ noiseJ (decNoise (← kvsOf (← j.getObjVal? "pb"))))])
   | "mat" =>
     let m ← matOf (← j.getObjVal? "obj")
@@ -1108,7 +1173,7 @@ def handleE (j : Json) : Except String Json := do
       ("dec_flag_first", optToJ provJ (FF.decProv some Prod.snd true p.m w))])
   | "ps" | "psparse" | "pseval" | "pswrite" => C15PSD.handle j
   | "tree" | "treedec" => C15TreeD.handle j
-  | "f32" | "f32s" | "ffc" | "ffcp_any" => C15FFVD.handle j
+  | "f32" | "f32s" | "ffc" | "ffcp_any" | "detctors" | "detdecs" => C15FFVD.handle j
   | _ => throw s!"unknown op {op}"
 
 def handle (j : Json) : Json :=
